@@ -241,9 +241,9 @@ def judge(ctx, results, monitors, label="trav"):
             # worker that creates an object on a foreign object root, the retry suffix two concurrent executions of ONE copy
             # leave in its prefix, or the parse-order tie-break between copies of a class during lazy expansion
             ctx.count("model-comparison-skipped:worker-id-substring-of-another")
-        elif r["disagree"] and spec.get("monitors_only") and spec.get("lazyparsed"):
-            ctx.count("model-comparison-skipped:" + spec["monitors_only"])
         elif r["disagree"]:
+            # (no exemption for `spec["monitors_only"]` any more: the mixed-set lazy cases that carried it are reproduced by the
+            # model since the `edgeCode` repair - also when an old payload with the marking is replayed)
             ctx.disagree(f"trace#{r['ident']}:block{r['disagree']['block']}", {"spec": spec, "ident": list(r["ident"])},
                          r["disagree"]["model"], r["disagree"]["impl"])
         if "owner" in monitors:
